@@ -305,7 +305,8 @@ def run(repo, rep):
     from . import shared_state as SS
     nf = SS.memoised_in_cone(repo, rep, 'C01.i', 'arguments that are equal but not the same value (0.0 and -0.0, 1 and True and 1.0, 2 and an IntEnum '
                              'member) share one cached result, so a value can be printed as the text of a different value of a different type')
-    rep.floor('C01.i', nf, 1)
+    nf += SS.caches_in_cone(repo, rep, 'C01.i', 'values that are equal but not the same (0.0 / -0.0, 1 / True / 1.0) would share one remembered text')
+    rep.floor('C01.i', nf, 5)
 
     # ---------------------------------------------------------------- C01.e key order (semantic: read off the interpreted dict printer)
     n = 0
